@@ -10,7 +10,7 @@ rc=0
 for s in $ids; do
   d=/verif/seeded/$s
   [ -f $d/patch.diff ] || continue
-  if ! git -C /repo apply --check $d/patch.diff 2>/dev/null; then echo "SKIP $s (patch does not apply on this tree)"; continue; fi
+  if ! git -C /repo apply --check $d/patch.diff 2>/dev/null; then echo "SKIP $s (patch does not apply on this tree: rebase it)"; rc=1; continue; fi
   git -C /repo apply $d/patch.diff
   props=$(python3 -c "import json;m=json.load(open('$d/meta.json'));print(' '.join(sorted(set(k.split('.')[0] for k in m.get('caught_by',[])))))")
   out=""
